@@ -623,6 +623,28 @@ class Evaluator:
         if name == "where" and len(c.args) == 3 and isinstance(c.args[0], ast.Compare) and len(c.args[0].ops) == 1 and isinstance(c.args[0].ops[0], ast.Eq) and isinstance(c.args[0].comparators[0], ast.Constant) and c.args[0].comparators[0].value == 0 and src(c.args[0].left) == src(c.args[2]):
             # where(x == 0, <replacement>, x): x outside a set of measure zero
             return Deg(degree_of(self.ev(c.args[2], env)))
+        if name == "where" and len(c.args) == 3 and isinstance(c.args[0], ast.Compare) and len(c.args[0].ops) == 1:
+            # the same guard spelled `0 == x`, `x != 0`, or -- for x >= 0 by construction (a norm, an absolute
+            # value, a square root) -- `x > 0` / `x <= 0`, with the branches in either order
+            t = c.args[0]
+            l_, r_, op = t.left, t.comparators[0], t.ops[0]
+            flip = {ast.Lt: ast.Gt, ast.LtE: ast.GtE, ast.Gt: ast.Lt, ast.GtE: ast.LtE, ast.Eq: ast.Eq, ast.NotEq: ast.NotEq}
+            if isinstance(l_, ast.Constant) and type(op) in flip:
+                l_, r_, op = r_, l_, flip[type(op)]()
+            if isinstance(r_, ast.Constant) and isinstance(r_.value, (int, float)) and r_.value == 0:
+                from ..common import inline_locals
+
+                d_ = inline_locals(self.f.node, l_)
+                nonneg = isinstance(d_, ast.Call) and (call_name(d_) or "") in ("norm", "abs", "sqrt", "absolute")
+                zero_branch = None  # index of the argument taken where x == 0
+                if isinstance(op, ast.Eq) or (isinstance(op, ast.LtE) and nonneg):
+                    zero_branch = 1
+                elif isinstance(op, ast.NotEq) or (isinstance(op, ast.Gt) and nonneg):
+                    zero_branch = 2
+                if zero_branch is not None:
+                    generic = c.args[3 - zero_branch]
+                    if src(generic) == src(l_):
+                        return Deg(degree_of(self.ev(generic, env)))
         if self.track_sign and name == "sign":
             return Deg({"S": ONE})
         if self.track_sign and name == "abs" and c.args:
